@@ -945,6 +945,9 @@ func (ctx Ctx) callExpr(s *ast.CallExpr) coq.Expr {
 							ctx.unsupported(s, "passing a value of type %s as interface %s (only the first argument is converted)", structName, interfaceName)
 							return nil
 						}
+						for k := 1; k < signature.Params().Len() && k < len(s.Args); k++ {
+							ctx.checkExprToInterface(s.Args[k], signature.Params().At(k).Type())
+						}
 						conversion := coq.StructToInterfaceDecl{
 							Fun:       ctx.expr(s.Fun).Coq(true),
 							Struct:    structName,
